@@ -45,6 +45,9 @@ func main() {
 				}()
 			}
 			wg.Wait()
+			for _, m := range scen.CheckHeld(nd) {
+				fmt.Println("RACEPASS-HELD-BLOCK-MODIFIED", sc.Name+":", m)
+			}
 			runs++
 		}
 	}
